@@ -12,6 +12,7 @@ import (
 	"verif/harness/props/c14"
 	"verif/harness/props/c17"
 	"verif/harness/props/c18"
+	"verif/harness/props/c20"
 )
 
 func Specs() map[string]*core.Spec {
@@ -26,6 +27,7 @@ func Specs() map[string]*core.Spec {
 		c14.Spec(),
 		c17.Spec(),
 		c18.Spec(),
+		c20.Spec(),
 	} {
 		m[s.ID] = s
 	}
